@@ -252,6 +252,10 @@ def get_invalid_variable_names():
     :return: list
     """
     internal = ['self', 'None', 'k']
+    # Equations are evaluated inside the equation_solver module: its own module-level names (imports,
+    # classes) are visible there, so a variable of that name would be shadowed by (or shadow) them.
+    internal += ['copy', 'warnings', 'sfc_models', 'Logger', 'Parameters', 'TimeSeriesHolder', 'EquationSolver',
+                 'ConvergenceError', 'NoEquilibriumError']
     kw = keyword.kwlist
     if is_python_3:
         built = dir(builtins)
